@@ -3,7 +3,7 @@
 P="$1"; ID="$2"; TIER="${3:-quick}"
 cd /repo || exit 9
 if [ -n "$(git status --porcelain)" ]; then echo "repo not clean"; exit 9; fi
-if ! patch -p1 -s --fuzz=3 < "$P"; then echo "PATCH-DOES-NOT-APPLY $P"; git checkout -q -- .; git clean -fdq; exit 8; fi
+if ! patch -p1 -s --fuzz=3 --no-backup-if-mismatch < "$P"; then echo "PATCH-DOES-NOT-APPLY $P"; git checkout -q -- .; git clean -fdq; exit 8; fi
 if ! go build ./... ; then echo "MUTANT-DOES-NOT-BUILD"; git checkout -q -- .; git clean -fdq; exit 7; fi
 cd /verif && ./check "$ID" "$TIER" > /tmp/try_seed.$$.log 2>&1; RC=$?
 grep -E "^(VIOLATION|KNOWN-FINDING|INCONCLUSIVE)|done in" /tmp/try_seed.$$.log | cut -c1-220
